@@ -401,3 +401,5 @@ V("C08", "sweep_keeps_old_statistics", "violation", (EIG, "            self.mu, 
 V("C08", "sweep_counts_before_new_spectrum", "violation", (EIG, "            self.mu, self.pfactors, self.N, self.W = self.calc_pfactor()\n            self._store_stats()\n            mu = self.mu\n", "            self._store_stats()\n            self.mu, self.pfactors, self.N, self.W = self.calc_pfactor()\n            mu = self.mu\n"), rule="C08.partition")
 V("C14", "views_repointed_for_unaddressed_models", "violation", (SYSTEM, "            if mdl.flags.address is False:\n                continue\n\n            for var in mdl.cache.vars_int.values():\n                var.set_arrays(self.dae, inplace=inplace, alloc=alloc)\n", "            for var in mdl.cache.vars_int.values():\n                var.set_arrays(self.dae, inplace=inplace, alloc=alloc)\n"), rule="C14.snapshot")
 V("C14", "benign_views_guard_merged", "silent", (SYSTEM, "            if mdl.n == 0:\n                continue\n\n            # variables without addresses (e.g., of dynamic models before the\n            # time-domain initialization) have nothing to point to yet\n            if mdl.flags.address is False:\n                continue\n\n            for var in mdl.cache.vars_int.values():\n                var.set_arrays(self.dae, inplace=inplace, alloc=alloc)\n", "            if mdl.n == 0 or not mdl.flags.address:\n                continue\n\n            for var in mdl.cache.vars_int.values():\n                var.set_arrays(self.dae, inplace=inplace, alloc=alloc)\n"))
+V("C18", "lagrate_ignores_D", "violation", ("andes/core/block.py", "        self.y.v_str = f'{self.u.name} * {self.K.name} / {self.D.name}'\n        self.y.e_str = f'{self.K.name} * {self.u.name} - {self.D.name} * {self.name}_y'\n\n\nclass LagAntiWindupRate", "        self.y.v_str = f'{self.u.name} * {self.K.name}'\n        self.y.e_str = f'{self.K.name} * {self.u.name} - {self.name}_y'\n\n\nclass LagAntiWindupRate"), rule="C18.tf")
+V("C18", "lagfreeze_drops_D", "violation", ("andes/core/block.py", "        Lag.__init__(self, u, T, K, D=D, name=name, tex_name=tex_name, info=info)\n        self.freeze = dummify(freeze)", "        Lag.__init__(self, u, T, K, D=1, name=name, tex_name=tex_name, info=info)\n        self.freeze = dummify(freeze)"), rule="C18.tf")
